@@ -1,4 +1,5 @@
 """C01 — every reported match is a genuine occurrence (R-GUARD capture guards, R-TOTAL filter translation, R-ORDER negation)."""
+import re
 from vpr import hirq as H
 from vpr.mir import op_place
 
@@ -75,14 +76,15 @@ def run_guards(ctx):
                 ctx.ok("capture-guard", key, "under branch type equality && pred_matches", site=t["sp"])
                 continue
             # indirection through a matched-branch local: guarded by `Some` discriminant of a local whose Some-assignments are guarded
+            # (the local is found by role, not by name: any plain local L with a guard discr(L) == Some)
             ind = None
             for g in gs:
-                if g["kind"] == "discr" and g["taken"] not in ("other",):
-                    nm = g["text"]
-                    if "matched_branch" in nm:
-                        ind = g
-            if ind is not None and matched_branch_guarded(ctx, b):
-                ctx.ok("capture-guard", key, "under matched_branch == Some, assigned only under type equality && pred_matches", site=t["sp"])
+                if g["kind"] == "discr" and g["taken"] == [1]:
+                    m_ = re.match(r"^discr\(([A-Za-z_][A-Za-z0-9_]*)\)$", g["text"])
+                    if m_ and matched_branch_guarded(ctx, b, m_.group(1)):
+                        ind = m_.group(1)
+            if ind is not None:
+                ctx.ok("capture-guard", key, "under %s == Some, assigned only under type equality && pred_matches" % ind, site=t["sp"])
                 continue
             ctx.violation("capture-guard", key, "%s records the event in the run without being dominated by the step test (guards: %s)" % (
                 what, "; ".join("%s=%s" % (g.get("text", "?")[:50], g["taken"]) for g in gs[-5:])), site=t["sp"])
@@ -148,8 +150,8 @@ def some_switch_before(b, blocks):
     return None
 
 
-def matched_branch_guarded(ctx, b):
-    ls = b.locals_named("matched_branch")
+def matched_branch_guarded(ctx, b, name):
+    ls = b.locals_named(name)
     if not ls:
         return False
     ok = True
